@@ -1,6 +1,7 @@
 package symgo
 
 import (
+	"os"
 	"bufio"
 	"fmt"
 	"io"
@@ -166,6 +167,9 @@ func (s *Solver) Check(extra *Term, timeoutMs int, wantModel []string) (Verdict,
 	for strings.HasPrefix(ans, "(error") || ans == "" || ans == "unsupported" || ans == "success" {
 		if strings.HasPrefix(ans, "(error") {
 			s.Stats.Errors++
+			if s.Stats.Errors <= 3 {
+				fmt.Fprintln(os.Stderr, "solver error line:", trunc(ans, 300))
+			}
 			// an error line means the answer that follows is not trustworthy
 			if s.dead {
 				return Unknown, nil
